@@ -192,9 +192,16 @@ def client_coding_choice():
 
             def close(self):
                 pass
+        # the configuration goes through the real constructor (an empty list means "no compression", None means
+        # "every registered coding")
+        log = types.SimpleNamespace(debug=lambda *a, **k: None, warn=lambda *a, **k: None, info=lambda *a, **k: None,
+                                    warning=lambda *a, **k: None, error=lambda *a, **k: None)
+        real = soapclient.SoapClient('127.0.0.1:9', 1, log, None, None, None, supported_encodings=list(sup), request_encodings=list(req))
+        if list(real.supported_encodings) != list(sup) or list(real.request_encodings) != list(req):
+            bad.append({'key': 'client-configuration', 'detail': f'SoapClient(supported_encodings={sup}, request_encodings={req}) is configured with {list(real.supported_encodings)} / {list(real.request_encodings)}'})
         fake = types.SimpleNamespace(
-            supported_encodings=sup, request_encodings=req, _chunk_size=0, _http_connection=Conn(), _netloc='x',
-            netloc='x', _log=types.SimpleNamespace(debug=lambda *a, **k: None, warn=lambda *a, **k: None),
+            supported_encodings=real.supported_encodings, request_encodings=real.request_encodings, _chunk_size=0,
+            _http_connection=Conn(), _netloc='x', netloc='x', _log=log,
             _close_without_lock=lambda: None, _has_connection_error=False)
         body = b'<x/>' * 50
         try:
@@ -215,6 +222,11 @@ def client_coding_choice():
             bad.append({'key': 'client-coding-roundtrip', 'detail': f'{ce}: sent body does not decode to the request'})
         if sup and hdr.get('Accept-Encoding') != ','.join(sup):
             bad.append({'key': 'client-accept-encoding', 'detail': f'Accept-Encoding {hdr.get("Accept-Encoding")!r} for {sup}'})
+    cases += 1
+    log = types.SimpleNamespace(debug=lambda *a, **k: None, warn=lambda *a, **k: None, info=lambda *a, **k: None)
+    dflt = soapclient.SoapClient('127.0.0.1:9', 1, log, None, None, None)
+    if list(dflt.supported_encodings) != list(compression.CompressionHandler.available_encodings) or list(dflt.request_encodings):
+        bad.append({'key': 'client-configuration', 'detail': f'default SoapClient: supported {list(dflt.supported_encodings)}, request {list(dflt.request_encodings)}'})
     return cases, bad
 
 
